@@ -196,5 +196,9 @@ ConeTableOK(e) ==
 C04ConeDrift(c) ==
   IF ~Has(c, "cones") THEN {}
   ELSE IF \A j \in DOMAIN c.cones : ConeTableOK(c.cones[j]) THEN {}
+       \* under a family that is not closed (the precondition of the known finding incomplete-cut-family) a wrong
+       \* table is that finding's mechanism seen from inside: an interior gate of the cone is missing, its pattern is 0
+       ELSE IF Has(c, "cuts") /\ FamilyIncomplete(c.orig, c.cuts)
+            THEN {"cone-table-wrong-under-an-incomplete-cut-family(known-finding-mechanism)"}
        ELSE {"cone-table-disagrees-with-the-circuit-on-a-reachable-leaf-pattern"}
 =============================================================================
